@@ -300,6 +300,20 @@ NetEvent(e) ==
                            THEN {<<(IF e.port = "mempool" THEN "C12.ReceiverAcksEachFrameOnce" ELSE "C06.ReceiverAcksEachProposalOnce"), l>>} ELSE {})
   /\ UNCHANGED <<vars, div, ndiv, lst, nsteps, have, seen, mp>>
 
+\* C02 is about what reaches the application: the blocks read from the node's commit channel (by the harness, between handler runs) are exactly
+\* the blocks the core committed, in that order (the Commit hook fires before the hand-over)
+ChannelCheck(e) ==
+  /\ viol' = viol \cup Lim(IF e.node \in Honest /\ [i \in 1..Len(e.blocks) |-> B(e.blocks[i])] # delivered[e.node]
+                           THEN {<<"C02.ChannelDeliversEveryCommit", l>>} ELSE {})
+  /\ UNCHANGED <<vars, div, ndiv, lst, nsteps, have, seen, mp>>
+
+\* C05 ("certified") for the node's own proposals, which loop back into process_block without passing Block::verify: a proposal the node broadcast
+\* with a QC that is neither the genesis QC nor a verifying certificate (judged by the harness on the wire) must not be what triggers a commit
+OwnBadCheck(e) ==
+  /\ viol' = viol \cup Lim(IF e.node \in Honest /\ \E i \in 1..Len(hist[e.node].commits) : hist[e.node].commits[i].by = B(e.blk)
+                           THEN {<<"C05.CommitTriggeredByCertifiedBlock", l>>} ELSE {})
+  /\ UNCHANGED <<vars, div, ndiv, lst, nsteps, have, seen, mp>>
+
 TNext ==
   /\ l <= Len(Rec)
   /\ l' = l + 1
@@ -309,6 +323,8 @@ TNext ==
          [] e.t = "core" /\ e.node \in Honest -> CoreStep(e)
          [] e.t = "task" /\ e.node \in Honest -> TaskStep(e)
          [] e.t = "net" -> NetEvent(e)
+         [] e.t = "rig" /\ e.k = "CommitChannel" -> ChannelCheck(e)
+         [] e.t = "rig" /\ e.k = "OwnProposalBadQC" -> OwnBadCheck(e)
          [] e.t = "mp" /\ e.k = "BatchStored" /\ e.node \in Honest -> Stored(e)
          [] e.t = "mp" /\ e.k \in {"Seal", "BatchAck", "QWRelease"} /\ e.node \in Honest -> MpEvent(e)
          [] OTHER -> Skip
